@@ -121,7 +121,7 @@ func (l *Lexer) scanToken() error {
 	case '/':
 		if l.match('/') {
 			// Line comment: ends at any WGSL line break; a lone carriage return is one too
-			for l.peek() != '\n' && l.peek() != '\r' && !l.isAtEnd() {
+			for !isLineBreak(l.peek()) && !l.isAtEnd() {
 				l.advance()
 			}
 		} else if l.match('*') {
@@ -188,6 +188,9 @@ func (l *Lexer) scanToken() error {
 	// Whitespace
 	case ' ', '\r', '\t':
 		// Ignore whitespace
+	case '\v', '\f', 0x85, 0x200E, 0x200F, 0x2028, 0x2029:
+		// The remaining WGSL blankspace code points: vertical tab, form feed,
+		// next line, left-to-right / right-to-left mark, line and paragraph separator.
 	case '\n':
 		l.line++
 		l.column = 1
@@ -203,6 +206,15 @@ func (l *Lexer) scanToken() error {
 	}
 
 	return nil
+}
+
+// isLineBreak reports whether r starts a WGSL line break (which ends a line comment).
+func isLineBreak(r rune) bool {
+	switch r {
+	case '\n', '\v', '\f', '\r', 0x85, 0x2028, 0x2029:
+		return true
+	}
+	return false
 }
 
 func (l *Lexer) blockComment() {
